@@ -5,7 +5,7 @@
 # VERIF_ROOT selects the copy of the machinery to run (default /verif; refactor_matrix.sh uses a frozen snapshot).
 P=$1; PROPS=${2:-all}; V=${VERIF_ROOT:-/verif}
 n=$(basename $P .diff)
-case "$P" in */round2/*) n="round2-$n";; */round3/*) n="round3-$n";; esac
+case "$P" in */round2/*) n="round2-$n";; */round3/*) n="round3-$n";; */round4/*) n="round4-$n";; esac
 W=/var/tmp/evaltree-$n-$$
 git -C /repo worktree add --detach $W HEAD >/dev/null 2>&1 || { echo "$n: cannot create worktree"; exit 3; }
 trap 'git -C /repo worktree remove --force $W >/dev/null 2>&1' EXIT
